@@ -746,7 +746,7 @@ func (e *Engine) LoadGlobals(pkgPath string) (err error) {
 func (e *Engine) SpecFuncs(pkgPath string) []string {
 	var out []string
 	for k, f := range e.Specs[pkgPath].Funcs {
-		if f.Imported {
+		if f.Imported || f.Inline {
 			continue
 		}
 		out = append(out, k)
